@@ -6,12 +6,14 @@ pub type AreaFn = fn(&Value) -> Vec<Value>;
 mod ows;
 mod sockopt;
 mod time;
+mod timed;
 
 pub fn lookup(name: &str) -> Option<AreaFn> {
     match name {
         "time" => Some(time::run),
         "ows" => Some(ows::run),
         "sockopt" => Some(sockopt::run),
+        "timed" => Some(timed::run),
         _ => None,
     }
 }
